@@ -2,6 +2,7 @@ package chord
 
 import (
 	"context"
+	"errors"
 	"fmt"
 
 	"go.miragespace.co/specter/spec/chord"
@@ -98,6 +99,11 @@ func (n *LocalNode) executeJoin(peer chord.VNode) (predecessor chord.VNode, succ
 func (n *LocalNode) RequestToJoin(joiner chord.VNode) (chord.VNode, []chord.VNode, error) {
 	succ, err := n.FindSuccessor(joiner.ID())
 	if err != nil {
+		// the lookup went through a node that was admitted to the ring but has not
+		// installed its successor list yet (it is still joining): try again later
+		if errors.Is(err, chord.ErrNodeNoSuccessor) {
+			return nil, nil, chord.ErrJoinInvalidState
+		}
 		return nil, nil, err
 	}
 	if succ.ID() == joiner.ID() {
